@@ -191,7 +191,8 @@ def pmap(fn: Callable, items: Iterable, *, chunksize: int = 1, jobs: Optional[in
             try:
                 results = fut.result()
             except BrokenProcessPool:
-                raise HarnessError('a worker process of the checker died (killed or crashed) while exploring')
+                codes = sorted({p.exitcode for p in (getattr(ex, '_processes', None) or {}).values() if p.exitcode not in (None, 0)}, key=str)
+                raise HarnessError(f'a worker process of the checker died (killed or crashed; exit codes seen: {codes}) while exploring')
             for kind, val in results:
                 if kind != 'ok':
                     raise HarnessError(val)
